@@ -29,27 +29,34 @@ CONSTANTS Replies,     \* set of [id, L (declared length), body (bytes that foll
           Prompts,     \* "fast" | "slow": the conversation (password prompt) answers at once / takes longer than the timeout
           DeadlineFrom,\* "io": the time limit applies to each wait on the socket (the code) | "init": one deadline armed before
                        \* the prompt - a slow conversation leaves a negative select timeout (EINVAL), the loop spins
+          Signals,     \* "none" | "one" | "stream": handled signals delivered to the host process while the module waits in select()
+          OnEintr,     \* "fail": an interrupted wait ends the exchange without success (the code) | "restart": wait again with the
+                       \* full timeout - a stream of signals spaced closer than the timeout keeps the module waiting for ever
           EofCheck, WriteMode, EmitEdges
 
 VARIABLES srv,    \* the server's script: [reachable, reply, cut, delay, after, staleErrno]
-          pc, got, rc
+          pc, got, rc,
+          sigs    \* signals delivered so far while waiting (0 or 1 matter)
 
-vars == <<srv, pc, got, rc>>
+vars == <<srv, pc, got, rc, sigs>>
 
 Min(a, b) == IF a < b THEN a ELSE b
 Need(r) == 2 + Min(r.L, 256)                     \* bytes the module wants to see
 Total(r) == 2 + r.body
 Cuts(r) == {k \in {0, 1, 2, 3, 4, Need(r) - 1, Need(r), Need(r) + 1, Total(r)} : k <= Total(r)}
 
-Scripts == {[reachable |-> FALSE, reply |-> r, cut |-> 0, delay |-> "none", after |-> "close", staleErrno |-> e, reads |-> TRUE, prompt |-> "fast"]
+Scripts == {[reachable |-> FALSE, reply |-> r, cut |-> 0, delay |-> "none", after |-> "close", staleErrno |-> e, reads |-> TRUE, prompt |-> "fast", signals |-> "none"]
                 : r \in {CHOOSE x \in Replies : TRUE}, e \in BOOLEAN}
-      \cup {[reachable |-> TRUE, reply |-> r, cut |-> k, delay |-> d, after |-> a, staleErrno |-> e, reads |-> TRUE, prompt |-> "fast"]
+      \cup {[reachable |-> TRUE, reply |-> r, cut |-> k, delay |-> d, after |-> a, staleErrno |-> e, reads |-> TRUE, prompt |-> "fast", signals |-> "none"]
                 : r \in Replies, k \in UNION {Cuts(x) : x \in Replies}, d \in Delays, a \in {"close", "stall"}, e \in BOOLEAN}
       \* the user takes longer over the password than the module's timeout (servers that answer without delay)
-      \cup {[reachable |-> TRUE, reply |-> r, cut |-> k, delay |-> "none", after |-> a, staleErrno |-> FALSE, reads |-> TRUE, prompt |-> p]
+      \cup {[reachable |-> TRUE, reply |-> r, cut |-> k, delay |-> "none", after |-> a, staleErrno |-> FALSE, reads |-> TRUE, prompt |-> p, signals |-> "none"]
                 : r \in Replies, k \in UNION {Cuts(x) : x \in Replies}, a \in {"close", "stall"}, p \in Prompts \ {"fast"}}
+      \* a silent server (nothing, or only the length, then nothing more) while signals arrive in the host process
+      \cup {[reachable |-> TRUE, reply |-> r, cut |-> k, delay |-> "none", after |-> "stall", staleErrno |-> FALSE, reads |-> TRUE, prompt |-> "fast", signals |-> g]
+                : r \in {x \in Replies : x.id \in {"OK", "NO-msg"}}, k \in {0, 2}, g \in Signals \ {"none"}}
       \* a server that accepts, does not read the request, sends (part of) a negative reply or nothing, and closes
-      \cup {[reachable |-> TRUE, reply |-> r, cut |-> k, delay |-> "none", after |-> "close", staleErrno |-> FALSE, reads |-> FALSE, prompt |-> "fast"]
+      \cup {[reachable |-> TRUE, reply |-> r, cut |-> k, delay |-> "none", after |-> "close", staleErrno |-> FALSE, reads |-> FALSE, prompt |-> "fast", signals |-> "none"]
                 : r \in {x \in Replies : ~x.ok}, k \in UNION {Cuts(x) : x \in Replies}}
 
 \* what the property demands
@@ -57,39 +64,43 @@ ExpectSuccess(s) == /\ s.reachable /\ s.cut <= Total(s.reply) /\ s.cut >= Need(s
                     /\ s.delay # "long" /\ s.reply.ok /\ s.reply.L >= 2
 
 Init == /\ srv \in {s \in Scripts : s.cut \in Cuts(s.reply)}
-        /\ pc = "connect" /\ got = 0 /\ rc = "none"
+        /\ pc = "connect" /\ got = 0 /\ rc = "none" /\ sigs = 0
         /\ IF EmitEdges THEN PrintT(ToJson([script |-> srv, success |-> ExpectSuccess(srv), need |-> Need(srv.reply)])) ELSE TRUE
 
 Connect == /\ pc = "connect"
            /\ IF srv.reachable THEN pc' = "send" /\ UNCHANGED rc ELSE pc' = "done" /\ rc' = "unavail"
-           /\ UNCHANGED <<srv, got>>
+           /\ UNCHANGED <<srv, got, sigs>>
 Send == /\ pc = "send"            \* the four parts (socket buffers absorb them) ...
         /\ ~(DeadlineFrom = "init" /\ srv.prompt = "slow")      \* (wrong design: the deadline has passed, select fails, the loop spins)
         /\ \/ pc' = "read" /\ UNCHANGED rc
            \* ... unless the server has closed without reading: a later part hits a closed connection
            \/ /\ ~srv.reads
               /\ pc' = "done" /\ rc' = IF WriteMode = "write" THEN "killed" ELSE "unavail"
-        /\ UNCHANGED <<srv, got>>
+        /\ UNCHANGED <<srv, got, sigs>>
 
 \* one pass of the read loop: select, then read
 Read ==
     /\ pc = "read"
     /\ LET want == IF got < 2 THEN 2 ELSE Need(srv.reply)
            avail == srv.cut - got
-       IN IF srv.delay = "long" /\ got = 0 THEN pc' = "done" /\ rc' = "unavail" /\ UNCHANGED got        \* select timed out
+       IN IF srv.delay = "long" /\ got = 0 THEN pc' = "done" /\ rc' = "unavail" /\ UNCHANGED <<got, sigs>>        \* select timed out
           ELSE IF avail > 0 THEN
-               /\ got' = Min(got + avail, want) /\ UNCHANGED rc
+               /\ got' = Min(got + avail, want) /\ UNCHANGED <<rc, sigs>>
                /\ pc' = IF Min(got + avail, want) >= Need(srv.reply) /\ got + avail >= 2 THEN "compare" ELSE "read"
-          ELSE IF srv.after = "stall" THEN pc' = "done" /\ rc' = "unavail" /\ UNCHANGED got             \* select timed out
+          ELSE IF srv.after = "stall" THEN
+               \* the module sits in select(); a signal interrupts the wait (EINTR) before the timeout is over
+               IF srv.signals = "none" \/ (srv.signals = "one" /\ sigs > 0) \/ OnEintr = "fail"
+               THEN pc' = "done" /\ rc' = "unavail" /\ UNCHANGED <<got, sigs>>                          \* timed out / interrupted: no success
+               ELSE sigs' = 1 /\ UNCHANGED <<pc, got, rc>>                                               \* waits again, full timeout
           ELSE \* the server has closed: read() returns 0
                IF EofCheck = "stale-errno" /\ srv.staleErrno
-               THEN UNCHANGED <<pc, got, rc>>                                                           \* spins
-               ELSE pc' = "done" /\ rc' = "unavail" /\ UNCHANGED got
+               THEN UNCHANGED <<pc, got, rc, sigs>>                                                     \* spins
+               ELSE pc' = "done" /\ rc' = "unavail" /\ UNCHANGED <<got, sigs>>
     /\ UNCHANGED srv
 
 Compare == /\ pc = "compare"
            /\ rc' = IF srv.reply.ok /\ srv.reply.L >= 2 THEN "success" ELSE "autherr"
-           /\ pc' = "done" /\ UNCHANGED <<srv, got>>
+           /\ pc' = "done" /\ UNCHANGED <<srv, got, sigs>>
 Done == pc = "done" /\ UNCHANGED vars
 
 Next == Connect \/ Send \/ Read \/ Compare \/ Done
